@@ -110,4 +110,7 @@ def check(prog: Program, rep):
     rep.rule("C03.R9", "solver noise of a float generating set does not reach the given-weights model as coefficients", floor=1)
     from rules.values import generating_set_as_weights
     generating_set_as_weights(prog, rep, "C03.R9", "MinFlowDecomp")
+    from rules.values import candidate_weights_exclude_ignored, subgraph_windows_guarded
+    candidate_weights_exclude_ignored(prog, rep, "C03.R9", "MinFlowDecomp")
+    subgraph_windows_guarded(prog, rep, "C03.R9")
 
